@@ -185,4 +185,4 @@ PENDING = {
 }
 
 NOT_APPLICABLE = {}
-HOOK_COMMITS = ["9c71e4cac"]
+HOOK_COMMITS = ["9c71e4cac", "fc646e211"]
